@@ -65,6 +65,17 @@ func vpCheckFilterStore(fs *filterHeaderStore, model []chainhash.Hash, blocks []
 			vpAssert(ok, "f-ancestors-content")
 		}
 	}
+	// ranges that reach below genesis or above the filter tip are refused,
+	// not answered with something else
+	_, _, berr := fs.FetchHeaderAncestors(uint32(tipH+1), &th)
+	vpAssert(berr != nil, "f-ancestors-below-genesis-refused")
+	if tipH+1 < len(blocks) {
+		// the shared block index knows this hash, the filter store does not reach it
+		above := blocks[tipH+1].BlockHash()
+		_, _, aerr := fs.FetchHeaderAncestors(0, &above)
+		vpReach("block-index-ahead-of-the-filter-store")
+		vpAssert(aerr != nil, "f-ancestors-of-a-block-above-the-filter-tip-refused")
+	}
 }
 
 // VerifH_C07_filterOps: the block store holds nb headers above genesis;
